@@ -83,25 +83,42 @@ Proof.
   apply Hq in Hr. exact (rtc_nil_false _ _ Hr).
 Qed.
 
+(* what a key's merge guarantees about the versions before and after (weak P3, quiescence, when the delta is dropped) *)
+Definition mfacts (g : ghost T2) (d1 t1 : common) : Prop :=
+  (forall x y, In (x, y) (itl t1) -> rtc (g_td T2 g) x y \/ In (x, y) (itl d1)) /\
+  (g_new T2 g = [] -> forall x y, In (x, y) (itl d1) -> In (x, y) (itl t1)) /\
+  (c_trait_is_empty d1 = Ok true -> g_new T2 g = []).
+
+Lemma mfacts_of_view : forall g r trel prec Eb d' t',
+  tinv_weak Eb trel -> req (Eb ++ prec) (g_td T2 g) -> (forall p, In p r <-> In p (g_new T2 g)) ->
+  merge_body r prec trel = Ok (CNew [], d', t') -> mfacts g d' t'.
+Proof.
+  intros g r trel prec Eb d' t' HE Hq Hr Hm. destruct (merge_view_facts g r trel prec Eb d' t' HE Hq Hr Hm) as [F1 [F2 F3]].
+  split; [exact F1|]. split; [exact F2|]. intros He. specialize (F3 He). subst r.
+  destruct (g_new T2 g) as [|p l]; [reflexivity|]. exfalso. apply (Hr p). now left.
+Qed.
+
 (* a key of delta.map *)
 Lemma kmerge_delta : forall g on d ot, KI1 on (Some d) ot g ->
-  exists n1 d1 t1, c_merge (nget on) d (nget ot) = Ok (n1, d1, t1) /\ shape (ghost_step T2 g PMerge) d1 t1.
+  exists n1 d1 t1, c_merge (nget on) d (nget ot) = Ok (n1, d1, t1) /\ shape (ghost_step T2 g PMerge) d1 t1 /\ mfacts g d1 t1.
 Proof.
   intros g on d ot [Hn Hs]. cbn [kshape] in Hs. destruct (knew_unwrap g on Hn) as [r [Hu Hr]].
   rewrite (c_merge_unwrap _ r _ _ Hu).
   destruct (shape_merge_view _ _ _ r Hs) as [trel [prec [Eb [Hm [HE [Hq Hemp]]]]]]. rewrite Hm.
-  destruct (merge_view_result _ r trel prec Eb HE Hq Hemp Hr) as [d' [t' [Hmb Hs']]]. rewrite Hmb. eexists _, _, _. split; [reflexivity|exact Hs'].
+  destruct (merge_view_result _ r trel prec Eb HE Hq Hemp Hr) as [d' [t' [Hmb Hs']]]. rewrite Hmb. eexists _, _, _. split; [reflexivity|].
+  split; [exact Hs'|]. exact (mfacts_of_view g r trel prec Eb d' t' HE Hq Hr Hmb).
 Qed.
 
 (* a key of new.map that delta.map does not have *)
 Lemma kmerge_new : forall g nw ot, KI1 (Some nw) None ot g ->
   exists n1 d1 t1, c_merge nw c_default (nget ot) = Ok (n1, d1, t1) /\ shape (ghost_step T2 g PMerge) d1 t1 /\
-                   (ot = None -> t1 = CTotal tr_empty).
+                   (ot = None -> t1 = CTotal tr_empty) /\ mfacts g d1 t1.
 Proof.
   intros g nw ot [Hn Hs]. cbn [kshape knew] in *. destruct Hn as [r [-> Hr]].
   destruct (absent_view _ _ Hs) as [tt [Et [Ht [HE [Hq Hemp]]]]]. rewrite Ht. rewrite c_merge_absent.
   destruct (merge_view_result _ r tt [] Et HE Hq Hemp Hr) as [d' [t' [Hmb Hs']]]. rewrite Hmb. eexists _, _, _. split; [reflexivity|].
-  split; [exact Hs'|]. intros ->. cbn [nget] in Ht. unfold c_default in Ht. inversion Ht; subst tt.
+  split; [exact Hs'|]. split; [|exact (mfacts_of_view g r tt [] Et d' t' HE Hq Hr Hmb)].
+  intros ->. cbn [nget] in Ht. unfold c_default in Ht. inversion Ht; subst tt.
   destruct (merge_body_first r [] tr_empty eq_refl) as [nd [Hmb' _]]. rewrite Hmb in Hmb'. inversion Hmb'. reflexivity.
 Qed.
 
@@ -124,12 +141,6 @@ Proof.
 Qed.
 
 (* what one version of one key serves, and that reading it does not fail *)
-Definition ksv (od : option common) (x y : nat) : Prop :=
-  match od with
-  | None => False
-  | Some c => exists l, c_iter_all c = Ok l /\ In (x, y) l
-  end.
-
 Lemma shape_reads : forall g d t, shape g d t ->
   (exists ld, c_iter_all d = Ok ld /\ forall x y, exists b, c_contains d x y = Ok b /\ (b = true <-> In (x, y) ld)) /\
   (exists lt, c_iter_all t = Ok lt /\ forall x y, exists b, c_contains t x y = Ok b /\ (b = true <-> In (x, y) lt)) /\
@@ -177,3 +188,276 @@ Proof.
   - intros x y. destruct (total_contains Et tt HE x y) as [b [Hb Hbb]]. exists b. split; [exact Hb|]. rewrite Hbb. symmetry. apply Hit.
   - intros x y. rewrite Hit. apply Hq.
 Qed.
+
+(* ================================================================== the two loops of the adaptor's merge *)
+Definition temp (d : common) : bool := match c_trait_is_empty d with Ok b => b | Err _ => false end.
+Lemma c_trait_ok : forall d, c_trait_is_empty d = Ok (temp d).
+Proof. intros d. reflexivity. Qed.
+
+Lemma aget_arem_ne : forall V (k k' : nat) (m : list (nat * V)), k' <> k -> aget k' (arem k m) = aget k' m.
+Proof. intros. rewrite aget_arem. destruct (Nat.eqb_spec k' k); [contradiction|reflexivity]. Qed.
+Lemma aget_arem_eq : forall V (k : nat) (m : list (nat * V)), aget k (arem k m) = None.
+Proof. intros. rewrite aget_arem, Nat.eqb_refl. reflexivity. Qed.
+
+Lemma loop1_spec : forall dm newm totm ndm,
+  NoDup (map fst dm) ->
+  (forall k d, In (k, d) dm -> exists r, c_merge (nget (aget k newm)) d (nget (aget k totm)) = Ok r) ->
+  exists newm' totm' ndm',
+    foldM tmerge_delta_step dm (newm, totm, ndm) = Ok (newm', totm', ndm') /\
+    (forall k, ~ In k (map fst dm) -> aget k newm' = aget k newm /\ aget k totm' = aget k totm /\ aget k ndm' = aget k ndm) /\
+    (forall k d, In (k, d) dm -> exists n1 d1 t1, c_merge (nget (aget k newm)) d (nget (aget k totm)) = Ok (n1, d1, t1) /\
+        aget k newm' = None /\ aget k totm' = Some t1 /\ aget k ndm' = if temp d1 then aget k ndm else Some d1) /\
+    (NoDup (map fst newm) -> NoDup (map fst newm')) /\ (NoDup (map fst totm) -> NoDup (map fst totm')) /\
+    (NoDup (map fst ndm) -> NoDup (map fst ndm')).
+Proof.
+  induction dm as [|[k0 d0] dm IH]; intros newm totm ndm Hnd Hok.
+  - exists newm, totm, ndm. split; [reflexivity|]. split; [auto|]. split; [intros k d []|auto].
+  - cbn [map fst] in Hnd. inversion Hnd as [|? ? Hk0 Hnd']; subst.
+    destruct (Hok k0 d0 (or_introl eq_refl)) as [[[n1 d1] t1] Hm].
+    set (ndm1 := if temp d1 then ndm else aset k0 d1 ndm).
+    assert (Hstep : tmerge_delta_step (newm, totm, ndm) (k0, d0) = Ok (arem k0 newm, aset k0 t1 totm, ndm1)).
+    { unfold tmerge_delta_step. cbn [fst snd]. fold (nget (aget k0 newm)). fold (nget (aget k0 totm)). rewrite Hm. cbn [bind].
+      rewrite c_trait_ok. cbn [bind]. reflexivity. }
+    assert (Hne : forall k, In k (map fst dm) -> k <> k0) by (intros k Hk ->; exact (Hk0 Hk)).
+    assert (Hne' : forall k d, In (k, d) dm -> k <> k0) by (intros k d Hk; apply Hne; apply in_map_iff; exists (k, d); auto).
+    destruct (IH (arem k0 newm) (aset k0 t1 totm) ndm1 Hnd') as [newm' [totm' [ndm' [Hf [Hout [Hin [N1 [N2 N3]]]]]]]].
+    { intros k d Hk. pose proof (Hne' k d Hk) as Hkk. rewrite (aget_arem_ne _ _ _ _ Hkk), (aget_aset_ne _ _ _ _ _ Hkk).
+      apply Hok. right; exact Hk. }
+    exists newm', totm', ndm'. split; [cbn [foldM]; rewrite Hstep; cbn [bind]; exact Hf|].
+    assert (Hndm1 : forall k, k <> k0 -> aget k ndm1 = aget k ndm).
+    { intros k Hk. unfold ndm1. destruct (temp d1); [reflexivity|apply aget_aset_ne; exact Hk]. }
+    split; [|split; [|split; [|split]]].
+    + intros k Hk. cbn [map fst] in Hk. assert (Hk1 : k <> k0) by (intros ->; apply Hk; now left).
+      assert (Hk2 : ~ In k (map fst dm)) by (intros H; apply Hk; now right).
+      destruct (Hout k Hk2) as [H1 [H2 H3]]. rewrite H1, H2, H3, (aget_arem_ne _ _ _ _ Hk1), (aget_aset_ne _ _ _ _ _ Hk1), (Hndm1 k Hk1). auto.
+    + intros k d [Hkd|Hkd].
+      * inversion Hkd; subst k d. exists n1, d1, t1. split; [exact Hm|]. destruct (Hout k0 Hk0) as [H1 [H2 H3]].
+        rewrite H1, H2, H3, aget_arem_eq, aget_aset_eq. split; [reflexivity|]. split; [reflexivity|].
+        unfold ndm1. destruct (temp d1); [reflexivity|apply aget_aset_eq].
+      * pose proof (Hne' k d Hkd) as Hkk. destruct (Hin k d Hkd) as [n2 [d2 [t2 [Hm2 [H1 [H2 H3]]]]]].
+        rewrite (aget_arem_ne _ _ _ _ Hkk), (aget_aset_ne _ _ _ _ _ Hkk) in Hm2. exists n2, d2, t2. split; [exact Hm2|].
+        split; [exact H1|]. split; [exact H2|]. rewrite H3, (Hndm1 k Hkk). reflexivity.
+    + intros H. apply N1. apply nodup_keys_arem; exact H.
+    + intros H. apply N2. apply nodup_keys_aset; exact H.
+    + intros H. apply N3. unfold ndm1. destruct (temp d1); [exact H|apply nodup_keys_aset; exact H].
+Qed.
+
+Lemma loop2_spec : forall nm totm ndm,
+  NoDup (map fst nm) ->
+  (forall k n, In (k, n) nm -> exists r, c_merge n c_default (nget (aget k totm)) = Ok r) ->
+  exists totm' ndm',
+    foldM tmerge_new_step nm (totm, ndm) = Ok (totm', ndm') /\
+    (forall k, ~ In k (map fst nm) -> aget k totm' = aget k totm /\ aget k ndm' = aget k ndm) /\
+    (forall k n, In (k, n) nm -> exists n1 d1 t1, c_merge n c_default (nget (aget k totm)) = Ok (n1, d1, t1) /\
+        aget k totm' = (match aget k totm with Some _ => Some t1 | None => None end) /\ aget k ndm' = Some d1) /\
+    (NoDup (map fst totm) -> NoDup (map fst totm')) /\ (NoDup (map fst ndm) -> NoDup (map fst ndm')).
+Proof.
+  induction nm as [|[k0 n0] nm IH]; intros totm ndm Hnd Hok.
+  - exists totm, ndm. split; [reflexivity|]. split; [auto|]. split; [intros k n []|auto].
+  - cbn [map fst] in Hnd. inversion Hnd as [|? ? Hk0 Hnd']; subst.
+    destruct (Hok k0 n0 (or_introl eq_refl)) as [[[n1 d1] t1] Hm].
+    set (totm1 := match aget k0 totm with Some _ => aset k0 t1 totm | None => totm end).
+    assert (Hstep : tmerge_new_step (totm, ndm) (k0, n0) = Ok (totm1, aset k0 d1 ndm)).
+    { unfold tmerge_new_step, totm1. cbn [fst snd]. unfold nget in Hm. destruct (aget k0 totm) as [tot|]; rewrite Hm; reflexivity. }
+    assert (Htot1 : forall k, k <> k0 -> aget k totm1 = aget k totm).
+    { intros k Hk. unfold totm1. destruct (aget k0 totm); [apply aget_aset_ne; exact Hk|reflexivity]. }
+    assert (Hne' : forall k n, In (k, n) nm -> k <> k0).
+    { intros k n Hk ->. apply Hk0. apply in_map_iff. exists (k0, n). auto. }
+    destruct (IH totm1 (aset k0 d1 ndm) Hnd') as [totm' [ndm' [Hf [Hout [Hin [N2 N3]]]]]].
+    { intros k n Hk. rewrite (Htot1 k (Hne' k n Hk)). apply Hok. right; exact Hk. }
+    exists totm', ndm'. split; [cbn [foldM]; rewrite Hstep; cbn [bind]; exact Hf|].
+    split; [|split; [|split]].
+    + intros k Hk. cbn [map fst] in Hk. assert (Hk1 : k <> k0) by (intros ->; apply Hk; now left).
+      assert (Hk2 : ~ In k (map fst nm)) by (intros H; apply Hk; now right).
+      destruct (Hout k Hk2) as [H2 H3]. rewrite H2, H3, (Htot1 k Hk1), (aget_aset_ne _ _ _ _ _ Hk1). auto.
+    + intros k n [Hkn|Hkn].
+      * inversion Hkn; subst k n. exists n1, d1, t1. split; [exact Hm|]. destruct (Hout k0 Hk0) as [H2 H3]. rewrite H2, H3, aget_aset_eq.
+        split; [|reflexivity]. unfold totm1. destruct (aget k0 totm) eqn:E; [apply aget_aset_eq|exact E].
+      * pose proof (Hne' k n Hkn) as Hkk. destruct (Hin k n Hkn) as [n2 [d2 [t2 [Hm2 [H2 H3]]]]].
+        rewrite (Htot1 k Hkk) in Hm2, H2. exists n2, d2, t2. auto.
+    + intros H. apply N2. unfold totm1. destruct (aget k0 totm); [apply nodup_keys_aset; exact H|exact H].
+    + intros H. apply N3. apply nodup_keys_aset; exact H.
+Qed.
+
+(* ================================================================== the provider *)
+Lemma ghost_eq : forall (a b : ghost T2), g_t T2 a = g_t T2 b -> g_td T2 a = g_td T2 b -> g_new T2 a = g_new T2 b -> a = b.
+Proof. intros [a1 a2 a3] [b1 b2 b3]. cbn. intros -> -> ->. reflexivity. Qed.
+
+Lemma aget_none_keys : forall V (k : nat) (m : list (nat * V)), aget k m = None <-> ~ In k (map fst m).
+Proof.
+  intros V k m. split.
+  - intros H Hk. apply aget_some_in_keys in Hk. congruence.
+  - intros H. destruct (aget k m) eqn:E; [|reflexivity]. exfalso. apply H. apply aget_some_in_keys. congruence.
+Qed.
+
+Lemma rebuild_rev_ok : forall rev m, (forall k c, In (k, c) m -> exists l, c_ind_iter_all rev c = Ok l) -> exists r, rebuild_rev rev m = Ok r.
+Proof.
+  intros rev m. unfold rebuild_rev. generalize (@nil (nat * list nat)). induction m as [|[k c] m IH]; intros acc H; [eexists; reflexivity|].
+  cbn [foldM fst snd]. destruct (H k c (or_introl eq_refl)) as [l Hl]. rewrite Hl. cbn [bind]. apply IH. intros k' c' Hk. apply (H k' c'). right; exact Hk.
+Qed.
+
+Definition flat3 (l : list (nat * list (nat * nat))) : list T3 := concat (map (fun kl => map (fun p => (fst kl, p)) (snd kl)) l).
+
+Lemma t_all_spec : forall t, NoDup (map fst (tm t)) -> (forall k c, In (k, c) (tm t) -> exists l, c_iter_all c = Ok l) ->
+  exists L, t_all t = Ok L /\
+    forall k x y, In (k, (x, y)) (flat3 L) <-> exists c l, aget k (tm t) = Some c /\ c_iter_all c = Ok l /\ In (x, y) l.
+Proof.
+  intros t Hnd Hok. unfold t_all.
+  rewrite (mapM_ok _ _ _ (fun kc => (fst kc, itl (snd kc))) (tm t)).
+  - eexists; split; [reflexivity|]. intros k x y. unfold flat3. rewrite map_map. cbn [fst snd]. rewrite in_concat. split.
+    + intros [l [Hl Hin]]. apply in_map_iff in Hl. destruct Hl as [[k' c] [<- Hkc]]. cbn [fst snd] in Hin.
+      apply in_map_iff in Hin. destruct Hin as [p [Ep Hp]]. inversion Ep; subst k' p.
+      destruct (Hok k c Hkc) as [l Hl]. exists c, l. split; [apply in_aget; assumption|]. split; [exact Hl|].
+      unfold itl in Hp. rewrite Hl in Hp. exact Hp.
+    + intros [c [l [Hc [Hl Hin]]]]. exists (map (fun p => (k, p)) (itl c)). split.
+      * apply in_map_iff. exists (k, c). split; [reflexivity|apply aget_in; exact Hc].
+      * apply in_map_iff. exists (x, y). split; [reflexivity|]. unfold itl. rewrite Hl. exact Hin.
+  - intros [k c] Hkc. cbn [fst snd]. destruct (Hok k c Hkc) as [l Hl]. unfold itl. rewrite Hl. reflexivity.
+Qed.
+
+Section Tern.
+Variables has1 has2 : bool.
+
+Definition tst : Type := (tern * tern * tern)%type.             (* new, delta, total *)
+Definition pt_init : tst := (t_default has1 has2, t_default has1 has2, t_default has1 has2).
+Definition pt_ins (s : tst) (t : T3) : tst * bool :=
+  let '(n, d, t0) := s in
+  match t_insert n (fst t) (fst (snd t)) (snd (snd t)) with Ok (n', b) => ((n', d, t0), b) | Err _ => (s, false) end.
+Definition pt_merge (s : tst) : tst := let '(n, d, t) := s in match t_merge n d t with Ok r => r | Err _ => s end.
+Definition pt_restart (s : tst) : tst := let '(n, d, t) := s in (t_default has1 has2, t, t_default has1 has2).
+Definition pt_ver (s : tst) (v : ver) : tern := let '(n, d, t) := s in match v with VTotal => t | VDelta => d end.
+Definition pt_read (s : tst) (v : ver) : list T3 := match t_all (pt_ver s v) with Ok l => flat3 l | Err _ => [] end.
+Definition pt_contains (s : tst) (v : ver) (t : T3) : bool :=
+  match t_contains (pt_ver s v) (fst t) (fst (snd t)) (snd (snd t)) with Ok b => b | Err _ => false end.
+
+Definition PT : provider T3 :=
+  {| St := tst; p_init := pt_init; p_ins := pt_ins; p_merge := pt_merge; p_restart := pt_restart;
+     p_read := pt_read; p_contains := pt_contains;
+     View := unit; Ix := unit; p_get := fun _ _ _ => None; p_all := fun _ _ _ => []; v_sel := fun _ _ => false; v_ix := fun _ => tt |}.
+
+Inductive qhist3 : list (pop T3) -> Prop :=
+| q3_nil : qhist3 []
+| q3_ins h p : qhist3 h -> qhist3 (h ++ [PIns p])
+| q3_merge h : qhist3 h -> qhist3 (h ++ [PMerge])
+| q3_restart h : qhist3 h -> g_new T3 (ghost_of T3 h) = [] -> incl (g_td T3 (ghost_of T3 h)) (g_t T3 (ghost_of T3 h)) ->
+    qhist3 (h ++ [PRestart]).
+
+(* ---- the invariant *)
+Definition osome {A} (o : option A) : bool := match o with Some _ => true | None => false end.
+Definition twf (t : tern) : Prop := NoDup (map fst (tm t)) /\ osome (rm1 t) = has1 /\ osome (rm2 t) = has2.
+Definition KI (s : tst) (g : ghost T3) : Prop :=
+  let '(n, d, t) := s in
+  twf n /\ twf d /\ twf t /\ forall k, KI1 (aget k (tm n)) (aget k (tm d)) (aget k (tm t)) (gk k g).
+
+Lemma twf_default : twf (t_default has1 has2).
+Proof. unfold twf, t_default. cbn. split; [constructor|]. destruct has1, has2; auto. Qed.
+
+Lemma absent_default_nil : forall g, rsub (g_t T2 g) [] -> req [] (g_td T2 g) -> absent g c_default.
+Proof. intros g H1 H2. exists tr_empty, []. split; [reflexivity|]. split; [apply tr_empty_inv|]. split; assumption. Qed.
+
+Lemma KI_init : KI pt_init (ghost_init T3).
+Proof.
+  unfold pt_init, KI. split; [apply twf_default|]. split; [apply twf_default|]. split; [apply twf_default|].
+  intros k. split; cbn; [reflexivity|]. apply absent_default_nil; [apply rsub_refl|intros x y; reflexivity].
+Qed.
+
+Lemma KI_ins : forall s g p, KI s g ->
+  exists n' b, (let '(n, d, t) := s in t_insert n (fst p) (fst (snd p)) (snd (snd p))) = Ok (n', b) /\
+               KI (let '(n, d, t) := s in (n', d, t)) (ghost_step T3 g (PIns p)).
+Proof.
+  intros [[n d] t] g [k [x y]] [Wn [Wd [Wt HK]]]. cbn [fst snd]. unfold t_insert.
+  fold (nget (aget k (tm n))). destruct (HK k) as [Hn Hs]. destruct (knew_unwrap _ _ Hn) as [r [Hu Hr]].
+  unfold c_insert. rewrite Hu. cbn [bind].
+  assert (Hstep : forall k', gk k' (ghost_step T3 g (PIns (k, (x, y)))) =
+                             if Nat.eqb k' k then ghost_step T2 (gk k' g) (PIns (x, y)) else gk k' g).
+  { intros k'. apply ghost_eq; destruct (Nat.eqb_spec k' k) as [->|Hne]; cbn [gk ghost_step g_t g_td g_new]; try reflexivity.
+    - apply proj_snoc_eq.
+    - apply proj_snoc_ne. intros E; apply Hne; symmetry; exact E. }
+  assert (Hsh : forall k' od tc, kshape (gk k' g) od tc -> kshape (ghost_step T2 (gk k' g) (PIns (x, y))) od tc).
+  { intros k' [dd|] tc H; cbn [kshape] in *; [destruct H; econstructor; eassumption|exact H]. }
+  destruct Wn as [Nn [F1 F2]].
+  destruct (pmem (x, y) r) eqn:Hm; cbn [bind]; eexists _, _; (split; [reflexivity|]); unfold KI;
+    (split; [split; [cbn [tm]; apply nodup_keys_aset; exact Nn|cbn [rm1 rm2]; try (destruct (rm1 n), (rm2 n); cbn in *; auto)]|]);
+    (split; [exact Wd|]); (split; [exact Wt|]); intros k'; rewrite Hstep; cbn [tm];
+    (destruct (Nat.eqb_spec k' k) as [->|Hne]; [rewrite aget_aset_eq|rewrite (aget_aset_ne _ _ _ _ _ Hne); apply HK]).
+  - split; [|apply Hsh; exact Hs]. cbn [knew ghost_step g_new]. exists r. split; [reflexivity|].
+    intros q. rewrite in_app_iff, <- Hr. cbn. split; [tauto|]. intros [H|[<-|[]]]; [exact H|apply pmem_in; exact Hm].
+  - split; [|apply Hsh; exact Hs]. cbn [knew ghost_step g_new]. exists (r ++ [(x, y)]). split; [reflexivity|].
+    intros q. rewrite !in_app_iff, <- Hr. reflexivity.
+Qed.
+
+Lemma KI_build : forall n d t g, twf n -> twf d -> twf t ->
+  (forall k, KI1 (aget k (tm n)) (aget k (tm d)) (aget k (tm t)) (gk k g)) -> KI (n, d, t) g.
+Proof. intros n d t g H1 H2 H3 H4. unfold KI. auto. Qed.
+
+Lemma gk_merge : forall k g, gk k (ghost_step T3 g PMerge) = ghost_step T2 (gk k g) PMerge.
+Proof. intros k g. apply ghost_eq; cbn [gk ghost_step g_t g_td g_new]; try reflexivity. apply proj_app. Qed.
+
+Lemma KI_merge : forall s g, KI s g ->
+  exists s', (let '(n, d, t) := s in t_merge n d t) = Ok s' /\ KI s' (ghost_step T3 g PMerge).
+Proof.
+  intros [[N D] Tt] g [Wn [Wd [Wt HK]]]. destruct Wn as [Nn [Fn1 Fn2]]. destruct Wd as [Nd [Fd1 Fd2]]. destruct Wt as [Nt [Ft1 Ft2]].
+  unfold t_merge.
+  (* first loop *)
+  destruct (loop1_spec (tm D) (tm N) (tm Tt) [] Nd) as [newm1 [totm1 [ndm1 [Hf1 [O1 [I1 [NN1 [NT1 NM1]]]]]]]].
+  { intros k d Hkd. pose proof (in_aget _ _ _ _ Nd Hkd) as Hd. destruct (HK k) as [Hn Hs]. rewrite Hd in Hs.
+    destruct (kmerge_delta _ _ d _ (conj Hn Hs)) as [n1 [d1 [t1 [Hm _]]]]. eexists; exact Hm. }
+  rewrite Hf1. cbn [bind].
+  specialize (NN1 Nn). specialize (NT1 Nt). specialize (NM1 (NoDup_nil _)).
+  assert (HinD : forall k, In k (map fst (tm D)) -> exists d, In (k, d) (tm D)).
+  { intros k Hk. apply in_map_iff in Hk. destruct Hk as [[k' d] [E H]]. cbn in E. subst k'. exists d; exact H. }
+  (* second loop *)
+  destruct (loop2_spec newm1 totm1 ndm1 NN1) as [totm2 [ndm2 [Hf2 [O2 [I2 [NT2 NM2]]]]]].
+  { intros k nw Hkn. pose proof (in_aget _ _ _ _ NN1 Hkn) as Hnw.
+    assert (HkD : ~ In k (map fst (tm D))).
+    { intros Hk. destruct (HinD k Hk) as [d Hd]. destruct (I1 k d Hd) as [_ [_ [_ [_ [E _]]]]]. congruence. }
+    destruct (O1 k HkD) as [E1 [E2 _]]. rewrite E2. rewrite E1 in Hnw.
+    destruct (HK k) as [Hn Hs]. rewrite Hnw in Hn. rewrite (proj2 (aget_none_keys _ _ _) HkD) in Hs.
+    destruct (kmerge_new _ nw _ (conj Hn Hs)) as [n1 [d1 [t1 [Hm _]]]]. eexists; exact Hm. }
+  rewrite Hf2. cbn [bind]. specialize (NT2 NT1). specialize (NM2 NM1).
+  (* what the three maps hold for a key afterwards *)
+  assert (HK' : forall k, KI1 None (aget k ndm2) (aget k totm2) (gk k (ghost_step T3 g PMerge))).
+  { intros k. rewrite gk_merge. destruct (HK k) as [Hn Hs]. split; [reflexivity|].
+    destruct (aget k (tm D)) as [d|] eqn:Hd.
+    - pose proof (aget_in _ _ _ _ Hd) as Hin. destruct (I1 k d Hin) as [n1 [d1 [t1 [Hm [E1 [E2 E3]]]]]].
+      assert (Hk2 : ~ In k (map fst newm1)) by (apply aget_none_keys; exact E1).
+      destruct (O2 k Hk2) as [E4 E5]. rewrite E4, E5, E2, E3. cbn [aget nget].
+      destruct (kmerge_delta _ _ d _ (conj Hn Hs)) as [n1' [d1' [t1' [Hm' Hs']]]]. rewrite Hm in Hm'. inversion Hm'; subst n1' d1' t1'.
+      destruct (temp d1) eqn:Ht; cbn [kshape]; [|exact Hs']. apply (kshape_drop _ d1 t1 Hs'). rewrite c_trait_ok, Ht. reflexivity.
+    - assert (HkD : ~ In k (map fst (tm D))) by (apply aget_none_keys; exact Hd).
+      destruct (O1 k HkD) as [E1 [E2 E3]]. cbn [aget] in E3.
+      destruct (aget k (tm N)) as [nw|] eqn:Hnw.
+      + assert (Hin : In (k, nw) newm1) by (apply aget_in; rewrite E1; reflexivity).
+        destruct (I2 k nw Hin) as [n1 [d1 [t1 [Hm [E4 E5]]]]]. rewrite E2 in Hm, E4. rewrite E4, E5.
+        destruct (kmerge_new _ nw _ (conj Hn Hs)) as [n1' [d1' [t1' [Hm' [Hs' Hnone]]]]]. rewrite Hm in Hm'. inversion Hm'; subst n1' d1' t1'.
+        cbn [kshape]. destruct (aget k (tm Tt)) as [tc|]; cbn [nget]; [exact Hs'|]. rewrite (Hnone eq_refl) in Hs'. exact Hs'.
+      + assert (Hk2 : ~ In k (map fst newm1)) by (apply aget_none_keys; rewrite E1; reflexivity).
+        destruct (O2 k Hk2) as [E4 E5]. rewrite E4, E5, E2, E3. cbn [kshape knew] in *. apply kidle; assumption. }
+  (* the delta's reverse maps are rebuilt from maps that can be read *)
+  assert (Hrb : forall rev, exists r, rebuild_rev rev ndm2 = Ok r).
+  { intros rev. apply rebuild_rev_ok. intros k c Hkc. pose proof (in_aget _ _ _ _ NM2 Hkc) as Hc.
+    destruct (HK' k) as [_ Hs]. rewrite Hc in Hs. cbn [kshape] in Hs. destruct (shape_reads _ _ _ Hs) as [_ [_ [Hr _]]]. apply Hr. }
+  destruct (Hrb false) as [rb1 Hrb1]. destruct (Hrb true) as [rb2 Hrb2].
+  assert (Hsome : forall (o : option mset) b, osome o = b -> b = true -> exists m, o = Some m).
+  { intros [m|] b H1 H2; [eexists; reflexivity|]. cbn in H1. congruence. }
+  assert (Hnone : forall (o : option mset) b, osome o = b -> b = false -> o = None).
+  { intros [m|] b H1 H2; [cbn in H1; congruence|reflexivity]. }
+  destruct has1 eqn:H1; destruct has2 eqn:H2.
+  - destruct (Hsome _ _ Fn1 eq_refl) as [a1 ->]. destruct (Hsome _ _ Fd1 eq_refl) as [b1 ->]. destruct (Hsome _ _ Ft1 eq_refl) as [c1 ->].
+    destruct (Hsome _ _ Fn2 eq_refl) as [a2 ->]. destruct (Hsome _ _ Fd2 eq_refl) as [b2 ->]. destruct (Hsome _ _ Ft2 eq_refl) as [c2 ->].
+    cbn [of_opt bind]. rewrite Hrb1, Hrb2. cbn [bind]. eexists. split; [reflexivity|].
+    apply KI_build; [| | |exact HK']; (split; [cbn [tm map]; first [constructor|assumption]|cbn [rm1 rm2 osome]; split; congruence]).
+  - destruct (Hsome _ _ Fn1 eq_refl) as [a1 ->]. destruct (Hsome _ _ Fd1 eq_refl) as [b1 ->]. destruct (Hsome _ _ Ft1 eq_refl) as [c1 ->].
+    rewrite (Hnone _ _ Fn2 eq_refl), (Hnone _ _ Fd2 eq_refl), (Hnone _ _ Ft2 eq_refl).
+    cbn [of_opt bind]. rewrite Hrb1. cbn [bind]. eexists. split; [reflexivity|].
+    apply KI_build; [| | |exact HK']; (split; [cbn [tm map]; first [constructor|assumption]|cbn [rm1 rm2 osome]; split; congruence]).
+  - rewrite (Hnone _ _ Fn1 eq_refl), (Hnone _ _ Fd1 eq_refl), (Hnone _ _ Ft1 eq_refl).
+    destruct (Hsome _ _ Fn2 eq_refl) as [a2 ->]. destruct (Hsome _ _ Fd2 eq_refl) as [b2 ->]. destruct (Hsome _ _ Ft2 eq_refl) as [c2 ->].
+    cbn [of_opt bind]. rewrite Hrb2. cbn [bind]. eexists. split; [reflexivity|].
+    apply KI_build; [| | |exact HK']; (split; [cbn [tm map]; first [constructor|assumption]|cbn [rm1 rm2 osome]; split; congruence]).
+  - rewrite (Hnone _ _ Fn1 eq_refl), (Hnone _ _ Fd1 eq_refl), (Hnone _ _ Ft1 eq_refl).
+    rewrite (Hnone _ _ Fn2 eq_refl), (Hnone _ _ Fd2 eq_refl), (Hnone _ _ Ft2 eq_refl).
+    cbn [of_opt bind]. eexists. split; [reflexivity|].
+    apply KI_build; [| | |exact HK']; (split; [cbn [tm map]; first [constructor|assumption]|cbn [rm1 rm2 osome]; split; congruence]).
+Qed.
+End Tern.
